@@ -65,21 +65,24 @@ ChunkClass(o) == IF o.dechunk # "ok" THEN o.dechunk
                  ELSE IF ~o.utf8 THEN "not-utf8" ELSE "ok"
 SchedClass(o) == IF o.stalled THEN "stalled" ELSE IF ~o.finished THEN "never-ended" ELSE "ok"
 
+\* (the expensive values are bound by set constructors, so that TLC evaluates each of them once per line)
+Verdict(r, out, wire) ==
+  LET o == r.obs
+      ms == r.scn.msgs
+      sig == [cr |-> CrClass(ms), outcome |-> out, head |-> HeadClass(o), chunked |-> ChunkClass(o), sched |-> SchedClass(o)]
+      modelEnd == drift = 0 /\ finished /\ Len(delivered) = Len(ms)
+  IN [t |-> "VERDICT", id |-> r.id,
+      ok |-> (out = "ok" /\ sig.head = "ok" /\ sig.chunked = "ok" /\ sig.sched = "ok"),
+      sig |-> sig,
+      drift |-> IF drift # 0 THEN drift ELSE IF modelEnd = o.finished THEN 0 ELSE Len(o.events) + 1,
+      fdrift |-> (o.toks # wire)]
 Judge(r) ==
-  IF ~IsSse(r) THEN [ok |-> FALSE, sig |-> [outcome |-> r.obs.kind, at |-> r.obs.where], drift |-> 0, fdrift |-> FALSE]
-  ELSE LET o == r.obs
-           ms == r.scn.msgs
-           out == Outcome(o.toks, ms)
-           sig == [cr |-> CrClass(ms), outcome |-> out, head |-> HeadClass(o), chunked |-> ChunkClass(o), sched |-> SchedClass(o)]
-           modelEnd == drift = 0 /\ finished /\ Len(delivered) = Len(ms)
-       IN [ok |-> (out = "ok" /\ sig.head = "ok" /\ sig.chunked = "ok" /\ sig.sched = "ok"),
-           sig |-> sig,
-           drift |-> IF drift # 0 THEN drift ELSE IF modelEnd = o.finished THEN 0 ELSE Len(o.events) + 1,
-           fdrift |-> (o.toks # WireOf(FrameImpl, ms))]
+  IF ~IsSse(r) THEN [t |-> "VERDICT", id |-> r.id, ok |-> FALSE, sig |-> [outcome |-> r.obs.kind, at |-> r.obs.where],
+                     drift |-> 0, fdrift |-> FALSE]
+  ELSE CHOOSE v \in {Verdict(r, out, wire) : out \in {Outcome(r.obs.toks, r.scn.msgs)}, wire \in {WireOf(FrameImpl, r.scn.msgs)}} : TRUE
 
 TEnd == /\ l <= N /\ k > Len(Evs(l))
-        /\ LET j == Judge(Rec[l]) IN
-           PrintT(ToJson([t |-> "VERDICT", id |-> Rec[l].id, ok |-> j.ok, sig |-> j.sig, drift |-> j.drift, fdrift |-> j.fdrift]))
+        /\ PrintT(ToJson(Judge(Rec[l])))
         /\ l' = l + 1 /\ k' = 1 /\ drift' = 0 /\ ResetTo(ScriptOf(l + 1))
 
 TNext == TStep \/ TEnd
